@@ -77,6 +77,9 @@ func crawlProp(level, rule string, q, th int, o scen.CrawlOpts) *propDef {
 			if tier == "thorough" && oo.MaxSeeds < 12 {
 				oo.MaxSeeds += 4
 			}
+			if o.Prop == "C02" && i%7 == 3 {
+				oo.Rotation = true // the WARC writer rotates files while seeds are being finished
+			}
 			if o.Prop == "C01" && i%5 == 4 {
 				oo.HQ = true // the queue is crawl HQ (with a per-call fault plan) in a fifth of the cases
 			}
